@@ -344,13 +344,16 @@ impl Display for ProcedureEntry {
 
 impl Display for TypeEntry {
     fn fmt(&self, f: &mut std::fmt::Formatter<'_>) -> std::fmt::Result {
-        write!(
-            f,
-            "{}",
-            self.data_type
-                .as_ref()
-                .map_or_else(|| "_".to_string(), |dt| dt.to_string())
-        )
+        let data_type = self
+            .data_type
+            .as_ref()
+            .map_or_else(|| "_".to_string(), |dt| dt.to_string());
+        if self.name.value == data_type {
+            // primitive type
+            write!(f, "{}", data_type)
+        } else {
+            write!(f, "type {} = {}", self.name, data_type)
+        }
     }
 }
 
